@@ -22,6 +22,6 @@ VPair(x) ==
        FailX(d # {}, "C19", "the wide-character function does not return what the narrow one returns on the same input", [fields |-> d])
 
 \* (events that exist for one character type only - the giant query sizes - are not pairs and are skipped)
-V(x) == IF x.e = "Pair" THEN VPair(x) ELSE IF x.e \in {"Reset", "ComposeReqGiant", "ComposeMallocGiant", "ComposeReqBoundary", "ComposeMallocBoundary"} THEN <<>> ELSE Fail("C19", "unknown event")
+V(x) == IF x.e = "Pair" THEN VPair(x) ELSE IF x.e \in {"Reset", "ComposeReqGiant", "ComposeMallocGiant", "ComposeGiantWrite", "ComposeReqBoundary", "ComposeMallocBoundary"} THEN <<>> ELSE Fail("C19", "unknown event")
 TNext == TStep(V)
 =============================================================================
